@@ -12,6 +12,7 @@ use crate::kscfg::KsCfg;
 use crate::ops::{ks_name, Op};
 use crate::rng::{mix, Rng};
 use crate::sweep::{Deviation, Map};
+use fjall::AbstractTree as _;
 use crate::util::{emit, fresh_dir, hex, rm_rf, show, unhex, Counts, Hasher, J};
 use crate::{hooks, Args};
 use fjall::{Database, KeyspaceCreateOptions};
@@ -221,6 +222,55 @@ pub fn worker_main(_args: &Args) -> i32 {
             let d1 = dump(&db)?;
             let mut d2 = None;
             if append {
+                // C11 after a crash: sequence numbers handed out now are above everything recovered, a write to a
+                // recovered key replaces it, a remove hides it, and a new snapshot sees it that way
+                let mut highest: Option<u64> = None;
+                for name in db.list_keyspace_names() {
+                    let ks = db.keyspace(&name, KeyspaceCreateOptions::default).map_err(|e| format!("{e:?}"))?;
+                    if let Some(h) = ks.tree.get_highest_seqno() {
+                        highest = Some(highest.map_or(h, |x: u64| x.max(h)));
+                    }
+                }
+                if let Some(hi) = highest {
+                    let (next, vis, snap) = (db.seqno(), db.visible_seqno(), db.snapshot().seqno());
+                    if next <= hi || vis <= hi || snap <= hi {
+                        return Err(format!("c11-seqno: after recovery next seqno {next} / visible {vis} / snapshot instant {snap} is not above the highest recovered seqno {hi}"));
+                    }
+                }
+                for name in names.iter().take(3) {
+                    let ks = db.keyspace(name, KeyspaceCreateOptions::default).map_err(|e| format!("{e:?}"))?;
+                    let first = match ks.first_key_value() {
+                        Some(g) => Some(g.key().map_err(|e| format!("{e:?}"))?.to_vec()),
+                        None => None,
+                    };
+                    let last = match ks.last_key_value() {
+                        Some(g) => Some(g.key().map_err(|e| format!("{e:?}"))?.to_vec()),
+                        None => None,
+                    };
+                    if let Some(k) = &first {
+                        ks.insert(k.clone(), "superseded").map_err(|e| format!("supersede: {e:?}"))?;
+                        let snap = db.snapshot();
+                        let a = ks.get(k).map_err(|e| format!("{e:?}"))?;
+                        let b = fjall::Readable::get(&snap, &ks, k).map_err(|e| format!("{e:?}"))?;
+                        if a.as_deref() != Some(&b"superseded"[..]) || b.as_deref() != Some(&b"superseded"[..]) {
+                            return Err(format!(
+                                "c11-supersede: after recovery, overwriting the recovered key {} of {name} is not visible (get: {:?}, new snapshot: {:?})",
+                                show(k),
+                                a.as_deref().map(show),
+                                b.as_deref().map(show)
+                            ));
+                        }
+                    }
+                    if let (Some(k), true) = (&last, last != first) {
+                        ks.remove(k.clone()).map_err(|e| format!("supersede: {e:?}"))?;
+                        let snap = db.snapshot();
+                        let a = ks.get(k).map_err(|e| format!("{e:?}"))?;
+                        let b = fjall::Readable::get(&snap, &ks, k).map_err(|e| format!("{e:?}"))?;
+                        if a.is_some() || b.is_some() {
+                            return Err(format!("c11-supersede: after recovery, removing the recovered key {} of {name} does not hide it", show(k)));
+                        }
+                    }
+                }
                 for (i, name) in names.iter().enumerate().take(3) {
                     let ks = db.keyspace(name, KeyspaceCreateOptions::default).map_err(|e| format!("{e:?}"))?;
                     ks.insert(format!("zz-appended-{i}"), format!("appended-{i}")).map_err(|e| format!("append: {e:?}"))?;
@@ -352,7 +402,20 @@ fn read_used(p: &Path, used: u64) -> Vec<u8> {
     v
 }
 
-fn with_appended(mut d: Dump, names: &[String]) -> Dump {
+/// Expected content after the worker's supersede + append step on recovered content `d`.
+pub(crate) fn with_appended(mut d: Dump, names: &[String]) -> Dump {
+    for name in names.iter().take(3) {
+        if let Some(m) = d.get_mut(name) {
+            let first = m.keys().next().cloned();
+            let last = m.keys().next_back().cloned();
+            if let Some(k) = &first {
+                m.insert(k.clone(), b"superseded".to_vec());
+            }
+            if let (Some(k), true) = (&last, last != first) {
+                m.remove(k);
+            }
+        }
+    }
     for (i, name) in names.iter().enumerate().take(3) {
         d.entry(name.clone()).or_default().insert(format!("zz-appended-{i}").into_bytes(), format!("appended-{i}").into_bytes());
     }
